@@ -99,6 +99,28 @@ fn all_styles(rep: &mut Report) {
                         }
                     }
                 }
+                // the same through a legal `io::Write` that takes 1-4 bytes per call (and, every other time, is
+                // interrupted now and then): the sequence must arrive whole
+                for interrupts in [false, true] {
+                    rep.count("styles_checked_through_a_short_writer", 1);
+                    let r = trap::catch(|| {
+                        let mut inner = pm::CapW::short(((ti * 9 + bi) * 3 + ii) as u64 * 2 + interrupts as u64);
+                        inner.interrupts = interrupts;
+                        let mut w = AnsiWriter(inner);
+                        w.set_style(&st).map(|_| w.0.bytes)
+                    });
+                    match r {
+                        Err(p) => rep.violation(&format!("C18:panic:set_style:{}", p.site()), json!({"style": d, "panic": p.message, "writer": "short writes"})),
+                        Ok(Err(e)) => rep.violation("C18:set_style-error", json!({"style": d, "error": e.to_string(), "writer": "short writes"})),
+                        Ok(Ok(bytes)) => {
+                            if bytes != want {
+                                rep.violation("C18:malformed-sgr:short-writes", json!({"style": d, "writer_is_interrupted": interrupts,
+                                    "expected": String::from_utf8_lossy(&want).replace('\x1b', "ESC"),
+                                    "got": String::from_utf8_lossy(&bytes).replace('\x1b', "ESC")}));
+                            }
+                        }
+                    }
+                }
             }
         }
     }
@@ -168,6 +190,25 @@ fn ansi_patterns(rep: &mut Report, rng: &mut Rng, idx: u64) {
                 };
                 rep.violation(sig, json!({"pattern": pattern, "level": ctx.level.to_string(), "message": ctx.message,
                     "expected": show(&want), "got": show(&got)}));
+            }
+        }
+    }
+    // the same record through an AnsiWriter whose inner writer takes 1-4 bytes per call
+    let interrupts = idx % 2 == 1;
+    let r = trap::catch(|| {
+        let mut inner = pm::CapW::short(rng.next_u64());
+        inner.interrupts = interrupts;
+        let mut w = AnsiWriter(inner);
+        pm::with_record(&ctx, &pieces, |rec| enc.encode(&mut w, rec)).map(|_| w.0.bytes)
+    });
+    rep.count("highlight_patterns_through_ansi_writer_with_short_writes", 1);
+    match r {
+        Err(p) => rep.violation(&format!("C18:panic:encode:{}", p.site()), json!({"pattern": pattern, "panic": p.message, "writer": "short writes"})),
+        Ok(Err(e)) => rep.violation("C18:encode-error", json!({"pattern": pattern, "error": e.to_string(), "writer": "short writes"})),
+        Ok(Ok(got)) => {
+            if got != want {
+                rep.violation("C18:ansi-output-differs:short-writes", json!({"pattern": pattern, "level": ctx.level.to_string(),
+                    "message": ctx.message, "writer_is_interrupted": interrupts, "expected": show(&want), "got": show(&got)}));
             }
         }
     }
